@@ -409,11 +409,50 @@ class Alias:
             e = e.value
         return isinstance(e, ast.Name) and e.id == "self"
 
+    def _must_names(self):
+        """Local names that are bound exactly once in the function, by a value-preserving step from `self`: `x = self.a.b`,
+        `for x in self.a` / `for i, x in enumerate(self.a)` (also through another such name).  Wherever such a name is used it
+        denotes an object reachable from self, so a mutation through it is as definite as one spelled with `self`."""
+        stores = {}
+        for n in own_nodes(self.fnode):
+            if isinstance(n, ast.Name) and isinstance(n.ctx, ast.Store):
+                stores[n.id] = stores.get(n.id, 0) + 1
+        for p_ in params_of(self.fnode):
+            stores[p_] = stores.get(p_, 0) + 1
+        must = set()
+
+        def chain(e):
+            while isinstance(e, (ast.Attribute, ast.Subscript)):
+                e = e.value
+            return isinstance(e, ast.Name) and (e.id == "self" or e.id in must)
+
+        for _ in range(3):
+            for n in own_nodes(self.fnode):
+                if isinstance(n, ast.Assign) and len(n.targets) == 1 and isinstance(n.targets[0], ast.Name) and isinstance(n.value, (ast.Attribute, ast.Subscript, ast.Name)):
+                    if stores.get(n.targets[0].id) == 1 and chain(n.value):
+                        must.add(n.targets[0].id)
+                elif isinstance(n, ast.For) and not n.orelse:
+                    it, tg = n.iter, n.target
+                    if isinstance(it, ast.Call) and isinstance(it.func, ast.Name) and it.func.id == "enumerate" and it.args and isinstance(tg, ast.Tuple) \
+                            and len(tg.elts) == 2:
+                        it, tg = it.args[0], tg.elts[1]
+                    if isinstance(tg, ast.Name) and stores.get(tg.id) == 1 and isinstance(it, (ast.Attribute, ast.Subscript, ast.Name)) and chain(it):
+                        must.add(tg.id)
+        return must
+
     def sites(self):
         """[(node, text, definite)]"""
         out = []
+        try:
+            must = self._must_names()
+        except Exception:  # noqa -- definiteness is an optimisation; without it the replayer decides
+            must = set()
+        def literal(e):
+            while isinstance(e, (ast.Attribute, ast.Subscript)):
+                e = e.value
+            return isinstance(e, ast.Name) and (e.id == "self" or e.id in must)
         def site(n, base, text):
-            out.append((n, text, self._literal_self(base)))
+            out.append((n, text, literal(base)))
         for n in own_nodes(self.fnode):
             targets = []
             if isinstance(n, ast.Assign):
